@@ -63,6 +63,7 @@ NextSession == /\ si < NS /\ l = Len(Sess.ev) + 1
                /\ UNCHANGED tid
 
 EndClauses == <<
+  << "run_does_not_raise", ~T.raised >>,
   << "C01_deterministic", C01 => T.ev2 = T.sess[1].ev >>,
   << "C02_complete",   (C02 /\ T.exhausted /\ NS = 1) => seen = Nodes >>,
   << "C08_nothing_lost", (C08 /\ T.exhausted) => done \cup seen = Nodes >> >>
